@@ -3744,8 +3744,14 @@ impl KotoVm {
                     match options.alignment {
                         StringAlignment::Default => {
                             if value_is_number {
-                                // Right-alignment by default for numbers
-                                fill.repeat(fill_chars) + &rendered
+                                // Right-alignment by default for numbers.
+                                // The `0` flag (a "0" fill without an alignment) pads after the sign,
+                                // so that the result is still the number.
+                                if fill.as_str() == "0" && rendered.starts_with('-') {
+                                    format!("-{}{}", fill.repeat(fill_chars), &rendered[1..])
+                                } else {
+                                    fill.repeat(fill_chars) + &rendered
+                                }
                             } else {
                                 // Left alignment by default for non-numbers
                                 rendered + &fill.repeat(fill_chars)
